@@ -254,7 +254,7 @@ func CheckC16(r *core.Run) {
 		mu.Unlock()
 	}
 	r.AddEvals(int64(cases))
-	r.Extra["damaged_images_opened"] = cases
+	r.SetExtra("damaged_images_opened", cases)
 	if len(events) > 5 {
 		r.AddSample(events[3])
 		r.AddSample(events[len(events)/2])
